@@ -73,6 +73,8 @@ func (area) Run(c *core.Ctx) error {
 				caseFlatStream(c, r)
 			case i%16 == 9:
 				caseInfluxFields(c, r)
+			case i%16 == 1:
+				casePooledHistory(c, r)
 			case i%8 == 7:
 				caseSingle(c, r, 120) // malformed stream
 			default:
@@ -1271,6 +1273,122 @@ func caseBatch(c *core.Ctx, r *rand.Rand) {
 	if anyAbsent {
 		c.Branch("route/rows-for-absent-shard")
 	}
+}
+
+// casePooledHistory: two requests on ONE pooled batch object, as channelManager.Write runs them.
+// Request A has rows outside the write window in the middle of the batch; it is evicted, sharded and
+// written by the real databaseChannel.Write and released to the pool. Request B (at least as many rows,
+// similar sizes) takes the same object back. Whatever A left behind, every row of B must come out of
+// the batch, and of the shard/family iterators, with exactly the payload that was appended, once.
+func casePooledHistory(c *core.Ctx, r *rand.Rand) {
+	cf := &cfg{lim: limits{isDefault: true}}
+	now := fasttime.UnixMilliseconds()
+	numShards := []int{1, 2, 4, 7}[r.Intn(4)]
+	na := 2 + r.Intn(8)
+	a := metric.NewBrokerBatchRows()
+	mk := func(prefix string, i int, ts int64) *lmetric {
+		m := simpleMetric(i, ts)
+		m.name = prefix + strconv.Itoa(i)
+		m.tags = append(m.tags, &ltag{"host", genStr(r, 3+r.Intn(3))})
+		return m
+	}
+	nOld := 0
+	for i := 0; i < na; i++ {
+		ts := now - int64(r.Intn(1000))
+		if i < na-1 && r.Intn(3) == 0 || i == 0 && na > 1 && nOld == 0 && r.Intn(2) == 0 {
+			ts = now - 5*3600*1000 // outside a 1h window
+			nOld++
+		}
+		m := mk("a", i, ts)
+		_ = a.TryAppend(func(row *metric.BrokerRow) error { e, _, _ := convertProto(cf, m, row); return e })
+	}
+	present := make([]int, numShards)
+	for i := range present {
+		present[i] = i
+	}
+	if _, err := replica.VerifC16Write([]timeutil.Interval{10000}, int32(numShards), present, 3600*1000, 3600*1000, a); err != nil {
+		c.Fail("channel-write-error", err.Error())
+	}
+	a.Release()
+	b := metric.NewBrokerBatchRows()
+	if b == a {
+		c.Branch("pooled-history/same-object")
+	}
+	if nOld > 0 {
+		c.Branch("pooled-history/request-A-had-evicted-rows")
+	}
+	nb := na + r.Intn(4)
+	base := int64(1700000000000)
+	c.Op(cf.enc(), "ok")
+	c.Op("newbatch -", "ok")
+	var ms []*lmetric
+	var wantPayload [][]byte
+	for i := 0; i < nb; i++ {
+		m := mk("r", i, base+int64(r.Intn(3))*3600*1000+int64(r.Intn(1000)))
+		ms = append(ms, m)
+		if err := b.TryAppend(func(row *metric.BrokerRow) error { e, _, _ := convertProto(cf, m, row); return e }); err != nil {
+			panic(err)
+		}
+		var alone metric.BrokerRow
+		if e, _, _ := convertProto(cf, m, &alone); e != nil {
+			panic(e)
+		}
+		var buf bytes.Buffer
+		_, _ = alone.WriteTo(&buf)
+		wantPayload = append(wantPayload, buf.Bytes())
+	}
+	// after ALL appends: what does each slot hold?
+	for i := range b.Rows() {
+		var buf bytes.Buffer
+		_, _ = b.Rows()[i].WriteTo(&buf)
+		if !bytes.Equal(buf.Bytes(), wantPayload[i]) {
+			fm := b.Rows()[i].Metric()
+			c.Fail("row-payload-differs-from-appended", fmt.Sprintf("request B (%d rows) on the pooled batch of request A (%d rows, %d evicted): slot %d was appended as %s and now reads as metric %q (%d vs %d bytes)", nb, na, nOld, i, ms[i].name, fm.Name(), buf.Len(), len(wantPayload[i])))
+		}
+		o, mism := observe(&b.Rows()[i])
+		if o == nil {
+			c.Op("add "+ms[i].enc(), "unreadable")
+			c.Fail("row-unreadable", mism)
+			continue
+		}
+		c.Op("add "+ms[i].enc(), o.line(ms[i].ts, 0, 0))
+	}
+	c.NonTrivial()
+	iv := timeutil.Interval(10000)
+	if h := handedOut(b, numShards, iv); h != b.Len() {
+		c.Fail("rows-not-of-this-batch-handed-out", fmt.Sprintf("request B has %d rows, the shard/family iterators hand out %d", b.Len(), h))
+		return
+	}
+	seen := map[string]int{}
+	var parts []string
+	it := b.NewShardGroupIterator(int32(numShards))
+	for it.HasRowsForNextShard() {
+		shardIdx, fit := it.FamilyRowsForNextShard(iv)
+		for fit.HasNextFamily() {
+			ft, rs := fit.NextFamily()
+			var ids []int
+			for k := range rs {
+				fm := rs[k].Metric()
+				nm := string(fm.Name())
+				seen[nm]++
+				if id, err := strconv.Atoi(strings.TrimPrefix(nm, "r")); err == nil {
+					ids = append(ids, id)
+				}
+			}
+			sort.Ints(ids)
+			sl := make([]string, len(ids))
+			for k, id := range ids {
+				sl[k] = strconv.Itoa(id)
+			}
+			parts = append(parts, fmt.Sprintf("%d:%d:%s:%s", shardIdx, ft, strings.Join(sl, ","), strings.Join(sl, ",")))
+		}
+	}
+	for _, m := range ms {
+		if seen[m.name] != 1 {
+			c.Fail("routing-loses-or-duplicates-rows", fmt.Sprintf("request B on the pooled batch of request A (%d rows, %d evicted): row %s comes out of the shard/family iterators %d times", na, nOld, m.name, seen[m.name]))
+		}
+	}
+	c.Op(fmt.Sprintf("route %d day", numShards), "groups "+strings.Join(parts, " "))
 }
 
 var influxKeyPool = []string{"a_last", "b_first", "c_sum", "d", "e1", "HistogramX_last", "__bucket_9_sum", "x.y_last", "поле_sum", "sum", "last", "first", "z_last_x"}
